@@ -34,7 +34,7 @@ for pid in ALL:
 
 manifest = {
     "version": 1,
-    "setup_cmd": "cd lean && timeout 3000 lake build AurelVerif coreeval",
+    "setup_cmd": "sh tools/setup.sh",
     "hooks": {"guard": "AUREL_VERIF", "enable": "no source hooks are needed: every observation point is reached by wrapping the public API inside the harness process (AUREL_VERIF=1 is exported by ./check for completeness)",
               "baseline_off_cmd": "cd /repo && /venv/bin/python -m pytest -ra -q -p no:cacheprovider --timeout=900 --continue-on-collection-errors",
               "source_commits": [], "add_only": True},
